@@ -408,6 +408,7 @@ func ruleEscSet(c *Ctx) {
 	l := c.L
 	sp := b.Codec
 	b.memberNameEscapes(l)
+	b.nestedEncodings(l)
 	tables := map[*ssa.Global]*[256]bool{}
 	for _, n := range []string{"safeSet", "htmlSafeSet"} {
 		if g, _ := sp.Members[n].(*ssa.Global); g != nil {
